@@ -1,14 +1,14 @@
 #!/bin/sh
 # usage: verify_seed.sh <seed dir>  -- confirms in a scratch worktree of /repo HEAD: demo passes without the patch, fails with it, suite stays at baseline with it
 d="$(cd "$1" && pwd)"
-wt=/tmp/wt_verify
+wt=/tmp/wt_verify_$(basename "$d")
 git -C /repo worktree remove --force $wt 2>/dev/null
 git -C /repo worktree add -q --detach $wt HEAD || exit 2
 cd $wt
-PYTHONPATH=$wt /venv/bin/python "$d/demo.py" >/tmp/verify_clean.out 2>&1; rc_clean=$?
+PYTHONPATH=$wt /venv/bin/python "$d/demo.py" >/tmp/verify_clean_$(basename "$d").out 2>&1; rc_clean=$?
 if ! git apply --check "$d/patch.diff" 2>/dev/null; then echo "RESULT $(basename $d): PATCH-DOES-NOT-APPLY"; git -C /repo worktree remove --force $wt; exit 3; fi
 git apply "$d/patch.diff"
-PYTHONPATH=$wt /venv/bin/python "$d/demo.py" >/tmp/verify_patched.out 2>&1; rc_patched=$?
+PYTHONPATH=$wt /venv/bin/python "$d/demo.py" >/tmp/verify_patched_$(basename "$d").out 2>&1; rc_patched=$?
 suite=$(/verif/tools/suite.sh $wt | head -1)
-echo "RESULT $(basename $d): demo_clean_rc=$rc_clean ($(tail -1 /tmp/verify_clean.out | cut -c1-60)) demo_patched_rc=$rc_patched ($(tail -1 /tmp/verify_patched.out | cut -c1-60)) suite_with_patch: $suite"
+echo "RESULT $(basename $d): demo_clean_rc=$rc_clean ($(tail -1 /tmp/verify_clean_$(basename "$d").out | cut -c1-60)) demo_patched_rc=$rc_patched ($(tail -1 /tmp/verify_patched_$(basename "$d").out | cut -c1-60)) suite_with_patch: $suite"
 cd /; git -C /repo worktree remove --force $wt
